@@ -1,24 +1,49 @@
 (* c20 model driver; case format: see harness/src/bin/c20.rs.
    answer: three predictions "R{..}|P{..}|O{..}" for the library outcomes read error / processing
-   error / success, each  exit;stdout;out;cyborg;log;stderr_diag;log_diag;recover
-   sink = '-' absent | 0 empty | renderer names joined by '+' ('!' = a failed write) *)
+   error / success, each  exit;stdout;out;cyborg;log;stderr_diag;log_diag;recover;sym
+   sink = '-' absent | 0 empty | K the file the run found, untouched | renderer names joined by '+' ('!' = a failed write,
+   'S' = bytes of the file the run found)
+   sym  = '-' | <roots in the order the supplier receives them>/<URLs in that order>/<root the module's symbols come from | ->
+          for the M<items> symbol specs (letters and digits as in the case format) *)
 let rec name_of_code (c : int) : string =
   match c with
-  | 1 -> "H" | 2 -> "HB" | 3 -> "J" | 4 -> "JP" | 5 -> "D" | 6 -> "DB" | 7 -> "HELP" | 99 -> "!"
+  | -7 -> "S" | 1 -> "H" | 2 -> "HB" | 3 -> "J" | 4 -> "JP" | 5 -> "D" | 6 -> "DB" | 7 -> "HELP" | 99 -> "!"
   | c when c > 100 -> name_of_code (c - 100) ^ "~"
   | _ -> "?"
 let fmt_sink (l : z list) : string =
   match List.map int_of_z l with
   | [-1] -> "-"
   | [] -> "0"
+  | [-7; -7; -7] -> "K"
   | cs -> String.concat "+" (List.map name_of_code cs)
 let b2s b = if b then "1" else "0"
-let fmt_obs o =
+let fmt_obs sym o =
   String.concat ";" [string_of_z (o_exit o); fmt_sink (o_stdout o); fmt_sink (o_out o); fmt_sink (o_cyborg o);
-                     fmt_sink (o_log o); b2s (o_stderr_diag o); b2s (o_log_diag o); b2s (o_recover o)]
-(* g fine | b d r File::create fails | u /dev/full | p.. f.. reader goes away | lim > 0: regular files fail after N bytes *)
+                     fmt_sink (o_log o); b2s (o_stderr_diag o); b2s (o_log_diag o); b2s (o_recover o); sym]
+(* the path exists before the run: x. (not the symlink loop xL, not the dangling symlink xK) and q. *)
+let pre (s : string) : bool =
+  String.length s > 0 && (s.[0] = 'q' || (s.[0] = 'x' && s <> "xL" && s <> "xK"))
+let roots = "amzfexog"
+let sym_pred (spec : string) : string =
+  if String.length spec = 0 || spec.[0] <> 'M' then "-" else begin
+    let codes = ref [] in
+    String.iteri (fun i ch ->
+      if i > 0 && ch <> '.' then begin
+        if ch >= '0' && ch <= '9' then codes := (200 + Char.code ch - 48) :: !codes
+        else begin
+          let low = Char.lowercase_ascii ch in
+          let k = 1 + String.index roots low in
+          codes := (if ch = low then k else 100 + k) :: !codes
+        end
+      end) spec;
+    let ((paths, urls), win) = sym_case (List.map z_of_int (List.rev !codes)) in
+    let letter z = String.make 1 roots.[int_of_z z - 1] in
+    String.concat "" (List.map letter paths) ^ "/" ^ String.concat "" (List.map (fun u -> string_of_int (int_of_z u)) urls) ^ "/" ^
+    (if int_of_z win = 0 then "-" else letter win)
+  end
+(* g x. q. fine (x. q.: the path exists before the run) | xL (symlink loop) b d r File::create fails | u /dev/full | p.. f.. reader goes away | lim > 0: regular files fail after N bytes *)
 let cls (lim : bool) (s : string) : z =
-  z_of_int (if s = "" then 0 else match s.[0] with
+  z_of_int (if s = "" then 0 else if s = "xL" then 1 else match s.[0] with
     | 'b' | 'd' | 'r' -> 1 | 'u' -> 2 | 'p' | 'f' -> 3 | 'g' -> if lim then 4 else 0 | _ -> 0)
 
 let () =
@@ -27,15 +52,16 @@ let () =
       let line = input_line stdin in
       if String.length line > 0 && line.[0] <> '#' then begin
         match split_ws line with
-        | _input :: _sym :: modes :: brief :: pretty :: feat :: rfa :: out :: cy :: log :: verbose :: stdout_c :: _evil :: _noflags :: rest ->
+        | _input :: sym :: modes :: brief :: pretty :: feat :: rfa :: out :: cy :: log :: verbose :: stdout_c :: _evil :: _noflags :: rest ->
           let lim = (match rest with l :: _ -> l <> "0" | [] -> false) in
           let has c = String.contains modes c in
           let feat = match feat with "1" -> 1 | "2" -> 2 | _ -> 0 in
           let ((r, p), o) =
             run_case (has 'h') (has 'j') (has 'c') (has 'D') (has 'm') (pretty = "1") (brief = "1")
               (z_of_int feat) (rfa = "1") (out <> "-") (log <> "-") (verbose = "off")
-              (cls lim out) (cls lim cy) (cls false log) (cls false stdout_c) in
-          print_endline (String.concat "|" [fmt_obs r; fmt_obs p; fmt_obs o])
+              (cls lim out) (cls lim cy) (cls false log) (cls false stdout_c) (pre out) (pre cy) (pre log) in
+          let sp = sym_pred sym in
+          print_endline (String.concat "|" [fmt_obs sp r; fmt_obs sp p; fmt_obs sp o])
         | _ -> failwith ("bad case line: " ^ line)
       end
     done
